@@ -27,11 +27,13 @@ var Prop = &engine.Prop{
 		"the Go race detector reports races only on executed interleavings",
 	},
 	ShardsQuick: 8, ShardsThorough: 16,
+	Setup: func(c *engine.Ctx) { Q = engine.NewQuiescer() },
 	Kinds: []engine.Kind{
 		{Name: "seq-lru", Quick: 4000, Thorough: 200000, Fn: seqLRUCase},
 		{Name: "seq-tiny", Quick: 2000, Thorough: 100000, Fn: seqTinyCase},
 		{Name: "wide", Quick: 2000, Thorough: 100000, Fn: wideCase},
 		{Name: "lin", Quick: 2000, Thorough: 100000, Fn: linCase},
+		{Name: "gated-size", Quick: 1200, Thorough: 60000, Fn: gatedSizeCase},
 		{Name: "stress", Quick: 160, Thorough: 4000, Repeat: 20, Fn: stressCase},
 	},
 	Floors: map[string]int64{
